@@ -23,6 +23,9 @@ ASSUMPTIONS = [
 INNER = gen.Opts(mux=True, max_depth=2, max_len=4, exact=True, weights={'item': 2, 'fold': 5, 'seq': 5, 'muxseq': 5, 'window': 3, 'tee': 4})
 
 
+TEEB = gen.Opts(mux=True, tee=False, windows=False, max_depth=0, max_len=2, exact=True)
+
+
 def wrap(layers, inner_ops):
     """layers: outer -> inner list of parent specs; returns the list of real operators."""
     ops = inner_ops
@@ -61,7 +64,17 @@ def nested_case(draw):
     mono = draw(st.integers(0, 2)) == 0
     tin = 'mono' if mono else 'int'
     layers = [draw(layer(mono)) for _ in range(draw(st.sampled_from([1, 1, 2])))]
-    p = draw(gen.chain(tin, INNER, INNER.max_depth, min_len=1))
+    if draw(st.integers(0, 4)) == 0:
+        # a join that keeps per-key slots, with a branch that can stay silent during a lifetime, at the head
+        join = draw(st.sampled_from(['zip', 'combine_latest']))
+        branches = [draw(gen.chain(tin, TEEB, 1, max_len=2)) for _ in range(draw(st.integers(2, 3)))]
+        k = draw(st.integers(0, len(branches) - 1))
+        branches[k] = [draw(st.sampled_from([['filter_gt', 2], ['filter_mod', 2, 0], ['filter_mod', 3, 1], ['take', 1]]))] + branches[k]
+        tee = ['tee', join, branches]
+        t2 = A.KINDS['tee'].accept(tin, tee)
+        p = [tee] + draw(gen.chain(t2, INNER, 1, max_len=2))
+    else:
+        p = draw(gen.chain(tin, INNER, INNER.max_depth, min_len=1))
     n0 = draw(st.sampled_from([1, 4, 6, 8]))
     if mono:
         items = draw(gen.mono_items(16))
@@ -129,6 +142,19 @@ def check_nested(case):
     labels = ['parent:' + '+'.join(l[0] for l in layers)] + H.labels_of(p)
     if reuse:
         labels.append('slot-reuse')
+    if p and p[0][0] == 'tee' and p[0][1] != 'merge':
+        # the history that exposed D4: a tee branch that stays silent during some lifetime (decided by the model)
+        silent = False
+        for h, _ in pairs:
+            for b in p[0][2]:
+                try:
+                    ev, _c = H.model_events(b, h['items'], 'mux')
+                except Reject:
+                    ev = [1]
+                if not ev:
+                    silent = True
+        if silent:
+            labels.append('tee-branch-silent')
     stateful = A.pipeline_stateful(p)
     return {'nontrivial': stateful and reuse, 'labels': labels}
 
@@ -274,6 +300,9 @@ def coverage_targets(classes, total):
     r = classes.get('nested:slot-reuse', 0)
     if n and r < 0.25 * n:
         out.append('nested: only %d of %d cases re-use a slot (target 25%%)' % (r, n))
+    t = classes.get('nested:tee-branch-silent', 0)
+    if n and t < 0.01 * n:
+        out.append('nested: only %d of %d cases have a silent tee branch in some lifetime (target 1%%)' % (t, n))
     return out
 
 
